@@ -40,6 +40,9 @@ func (c09) Gen(tier string, seed int64, emit func([]Ev)) {
 			for !(s.Cmd.Kind == "null" || s.Cmd.Kind == "time" || s.Cmd.Kind == "insert") {
 				s = rndSig(r)
 			}
+			if i%30 == 0 && (tier != "thorough" || i%600 == 0) {
+				growSig(r, &s, 1024+r.Intn(400)) // re-encoding a section longer than 1023 bytes
+			}
 			kind = s.Cmd.Kind
 			order := []string{}
 			foreign := []Ev{}
